@@ -295,7 +295,7 @@ var Prop = &harness.Prop{
 	ID:    "C05",
 	Level: "model_checking",
 	Rule: "history part: every sequence of the 10 listed Encrypt/Decrypt operations (two long-lived cipher objects with different keys, disjoint / in-place / long dst) up to the depth bound, each result compared with a stateless independent SM4; table part: for 4 keys every byte value in every block position, every single-bit block, every byte value in every key position, every single-bit key, 3000 fixed pairs, in disjoint and in-place arrangements with canaries; NewCipher for every key length 0..64. " +
-		"states = first-operation subtrees completed; outcomes = verdict classes; evaluations/nontrivial count (key, block) pairs of the table part. Fresh-process unit: every sequence of one or two (Encrypt/Decrypt, key) steps over {zero, all-ones, example, 0..01, 01 0..} as the first library activity of a new process (package-level state cannot be reset in-process).",
+		"states = first-operation subtrees completed; outcomes = verdict classes; evaluations/nontrivial count (key, block) pairs of the table part. Fresh-process unit: every sequence of one or two (Encrypt/Decrypt, key) steps over {zero, all-ones, example, 0..01, 01 0..} as the first library activity of a new process (package-level state cannot be reset in-process). Key lengths 0..64 each with five fillings (zeros, ones, lower / upper hex digits, text).",
 	Assumptions: []string{"refsm4 (S-box computed from its algebraic definition, anchored on the two vectors of GM/T 0002) is correct"},
 	Bounds: func(tier string) string {
 		if tier == "thorough" {
